@@ -5,3 +5,5 @@ open LasModel.Props.C18
 #print axioms C18_write
 #print axioms C18_lasdata_write
 #print axioms C18_append
+#print axioms C18_write_evlrs
+#print axioms C18_read_las
